@@ -7,7 +7,7 @@
 From Coq Require Import List PArith ZArith Bool String.
 From SV Require Import SM.Store SM.StoreProofs SM.StoreCert SM.StoreCertProofs SM.StoreCopy SM.StoreCopyProofs
   SM.StoreExamples SM.KvAdd SM.KvAddProofs SM.StoreCopySrc SM.StoreCopySrcProofs SM.KvAddFresh SM.KvAddFreshProofs
-  SM.StoreCopyExport SM.StoreCopyExportProofs SM.StoreCopyFlow SM.StoreCopyFlowProofs SM.StoreCopyWholeProofs SM.StoreRowCert SM.StoreRowCertProofs SM.OpPurity SM.OpPurityProofs SM.CollapseCensus SM.CollapseCensusProofs
+  SM.StoreCopyExport SM.StoreCopyExportProofs SM.StoreCopyFlow SM.StoreCopyFlowProofs SM.StoreCopyWholeProofs SM.StoreRowCert SM.StoreRowCertProofs SM.StoreExportCert SM.StoreExportCertProofs SM.OpPurity SM.OpPurityProofs SM.CollapseCensus SM.CollapseCensusProofs
   Gen.CopyCensus_gen Gen.CopyExportReads_gen Gen.C09OpCensus_gen Gen.C09Collapse_gen.
 Import ListNotations.
 
@@ -499,3 +499,41 @@ Theorem c09_row_cert_not_vacuous :
                (2, Node true [VAtom 6; VRef 4]); (4, Node true [VAtom 255])]%positive
               [1; 3]%positive 1%positive 2%positive [2; 4]%positive rc_census rc_sources = false.
 Proof. exact (conj row_cert_accepts (conj row_cert_rejects_shared row_cert_rejects_changed_value)). Qed.
+
+(** ROUND 3 — THE COMPLETENESS PREMISES AND THE WHOLE PROPERTY ON REAL OBJECT GRAPHS (kernel-checked).  [mobs_eq] speaks
+    about every depth; it is decided by comparing the masked unfoldings at one depth at which both have stabilised. *)
+Theorem c09_mobs_eq_decided : forall (mk : loc -> list bool) N h h' v v',
+  mobs_eq_b mk N h h' v v' = true -> mobs_eq mk h h' v v'.
+Proof. exact mobs_eq_b_sound. Qed.
+
+(** An accepted completeness certificate (heap exported from a real original + copy, export masks of every labelled
+    node from the generated reads tables) + the census obligation ⟹ the real copy is observed equal at every depth. *)
+Theorem c09_export_cert_sound : forall l' old la lc masks N c s reads,
+  export_cert_ok l' old la lc masks N c s reads = true ->
+  copy_export_ok c s reads = true ->
+  mobs_eq (mk_of (mk_masks masks)) (hold (mk_heap l') (mk_set old)) (hof (mk_heap l')) (VRef la) (VRef lc).
+Proof. exact export_cert_sound. Qed.
+
+(** Both certificates on the same exported heap + the three census obligations of the class: THE WHOLE PROPERTY for
+    that real (original, copy) pair — instance of [c09_copy_complete_and_independent] with every premise discharged
+    inside the kernel. *)
+Theorem c09_real_copy_complete_and_independent : forall l' old la lc SB masks N c s reads,
+  row_cert_ok l' old la lc SB c s = true ->
+  export_cert_ok l' old la lc masks N c s reads = true ->
+  copy_fresh_mutables c = true -> copy_sources_match c s = true -> copy_export_ok c s reads = true ->
+  let mk := mk_of (mk_masks masks) in let h' := hof (mk_heap l') in let h := hold (mk_heap l') (mk_set old) in
+  mobs_eq mk h h' (VRef la) (VRef lc) /\
+  (forall ms h'' R, steps (h', [lc]) ms (h'', R) -> forall n, munfold mk n h'' (VRef la) = munfold mk n h (VRef la)) /\
+  (forall ms h'' R, steps (h', [la]) ms (h'', R) -> forall n, munfold mk n h'' (VRef lc) = munfold mk n h (VRef la)).
+Proof. exact real_copy_complete_and_independent. Qed.
+
+(** The completeness checker accepts a faithful copy (new id invisible), rejects a copy whose vector differs, and
+    rejects (never wrongly accepts) a comparison depth at which the unfolding has not stabilised. *)
+Theorem c09_export_cert_not_vacuous :
+  let L v := [(1, Node true [VAtom 10; VAtom 5; VRef 3]); (3, Node true [VAtom 255]);
+              (2, Node true [VAtom 11; VAtom 5; VRef 4]); (4, Node true [VAtom v])]%positive in
+  let M := [(1%positive, obs_mask xc_census xc_reads); (2%positive, obs_mask xc_census xc_reads)] in
+  export_cert_ok (L 255%Z) [1; 3]%positive 1%positive 2%positive M 4 xc_census xc_sources xc_reads = true /\
+  export_cert_ok (L 128%Z) [1; 3]%positive 1%positive 2%positive M 4 xc_census xc_sources xc_reads = false /\
+  export_cert_ok (L 255%Z) [1; 3]%positive 1%positive 2%positive M 0 xc_census xc_sources xc_reads = false.
+Proof. cbv zeta. exact (conj export_cert_accepts (conj export_cert_rejects_changed_vector export_cert_rejects_unstable_depth)). Qed.
